@@ -118,7 +118,8 @@ impl CommitTree {
                     indices_to_prove.as_slice(),
                     leaves_to_prove.as_slice(),
                     *length,
-                ) {
+                ) && Self::is_prefix_root(&leaves, *length, other_root)
+                {
                     Ok(Comparison::Contains(indices_to_prove.to_vec()))
                 } else {
                     Ok(Comparison::Unknown)
@@ -127,6 +128,26 @@ impl CommitTree {
                 Ok(Comparison::Unknown)
             }
         }
+    }
+
+    /// Determine if the other tree is a prefix of these leaves.
+    ///
+    /// A proof only shows that the proven leaves exist at the
+    /// same positions in both trees; the other tree is contained
+    /// in this tree when the root of our first `length` leaves is
+    /// the root of the other tree.
+    fn is_prefix_root(
+        leaves: &[TreeHash],
+        length: usize,
+        other_root: &CommitHash,
+    ) -> bool {
+        if length > leaves.len() {
+            // Other tree is longer so only the proven leaves
+            // can be compared
+            return true;
+        }
+        let prefix = MerkleTree::<Sha256>::from_leaves(&leaves[..length]);
+        prefix.root().as_ref() == Some(other_root.as_ref())
     }
 
     /// Compute the first commit state.
